@@ -180,16 +180,18 @@ func validateMXIDMappingSignatures(ctx context.Context, e PDU, mapping MXIDMappi
 		return err
 	}
 
-	var toVerify []VerifyJSONRequest
-	for s := range mapping.Signatures {
-		v := VerifyJSONRequest{
-			Message:              mappingBytes,
-			AtTS:                 e.OriginServerTS(),
-			ServerName:           s,
-			ValidityCheckingFunc: verImpl.SignatureValidityCheck,
-		}
-		toVerify = append(toVerify, v)
+	// The mapping must be signed by the server of the user it maps to: signatures
+	// by other servers (or no signatures at all) prove nothing about that user.
+	userID, err := spec.NewUserID(mapping.UserID, true)
+	if err != nil {
+		return fmt.Errorf("invalid user_id in MXIDMapping: %w", err)
 	}
+	toVerify := []VerifyJSONRequest{{
+		Message:              mappingBytes,
+		AtTS:                 e.OriginServerTS(),
+		ServerName:           userID.Domain(),
+		ValidityCheckingFunc: verImpl.SignatureValidityCheck,
+	}}
 
 	// check that the mapping is correctly signed by the server
 	results, err := verifier.VerifyJSONs(ctx, toVerify)
